@@ -12,7 +12,7 @@ CLAIMED = {
    design="6/C11"),
  "C01": dict(
    technique="runtime monitoring: differential reference-model monitor (independent tree-walking reference semantics vs the real parser/compiler/VM) over generated and directed sessions, both compile modes, plain/tight/pregrown allocation",
-   text="Typed-generator sessions (closures, recursion, generators, every operator and operand source, planted faults of every class) and directed corpus sessions are executed statement by statement by an independent reference interpreter and by the real pipeline in REPL and script mode; value tree, output bytes and error class must agree. Evidence lists executed instruction shapes and compile-context classes.",
+   text="Typed-generator sessions (closures, recursion, generators, every operator and operand source, planted faults of every class incl. non-boolean conditions around bodies of every weight, loops in tail position whose bodies end in compound statements, loop conditions routed through a writing identity function, helpers bound to built-in names, int and equal float literals side by side, slices beyond a prefix of a longer array) and directed corpus sessions are executed statement by statement by an independent reference interpreter and by the real pipeline in REPL and script mode; value tree, output bytes and error class must agree. Evidence lists executed instruction shapes and compile-context classes.",
    note="Trusts harness/rs as the executable README; programs relying on behaviour the README leaves open are detected by the reference and dropped (counted).",
    design="6/C01"),
  "C02": dict(
@@ -22,7 +22,7 @@ CLAIMED = {
    design="6/C02"),
  "C03": dict(
    technique="runtime monitoring: metamorphic history monitor (one pure call evaluated in 13 dynamic contexts of one session, interleaved with noise, under plain/tight/pregrown allocation) + differential reference-model monitor",
-   text="Within one session a side-effect-free function (random typed; closure around a deep call; closure around a 129..300-local call; wide frame with a loop over its last local; closure generator read after every resume; three-way zip; loops calling returned closures; function literals written in a for iterator expression that escape the loop before another function recycles the context; a closure routed through other functions while its defining call is live) is called with equal arguments as first statement, at recursion depths 1..4/10/130/1000 and two random depths in 100..420, in while/for bodies, inside a generator, twice in one array literal, after a failed statement, after the stack grew by up to 4000 frames, after contexts were recycled, after an early return out of a zipped loop in the same statement; all renderings must equal the first and the reference. A second family sweeps a function that reads a never-assigned local (must be nil) over 45 consecutive call depths after dirtying the slots below. A third (depths) calls a loop-running function from the body of a live zipped/nested loop through d plain frames, d sweeping 0..1000, the neighbourhoods of 2^8, 2^9, 2^15, 2^16 and 2^17, and runs a zipped loop on every recursion level up to 600 levels: the value must not depend on d and must be the one computed from the program constants.",
+   text="Within one session a side-effect-free function (random typed; closure around a deep call; closure around a 129..300-local call; wide frame with a loop over its last local; closure generator read after every resume; three-way zip; loops calling returned closures; function literals written in a for iterator expression that escape the loop before another function recycles the context; a closure routed through other functions while its defining call is live; closures that leave their call through yield; a loop tail that may run zero times; a loop whose iterator expressions read locals from every part of a small frame) is called with equal arguments as first statement, at recursion depths 1..4/10/130/1000 and two random depths in 100..420, in while/for bodies, inside a generator, twice in one array literal, after a failed statement, after the stack grew by up to 4000 frames, after contexts were recycled, after an early return out of a zipped loop in the same statement, after a failing call chain that defined a closure on every level, after an abandoned closure generator, after a narrow function's loop in the same statement; every statement of the session is also compared with the reference; all renderings must equal the first and the reference. A second family sweeps a function that reads a never-assigned local (must be nil) over 45 consecutive call depths after dirtying the slots below. A third (depths) calls a loop-running function from the body of a live zipped/nested loop through d plain frames, d sweeping 0..1000, the neighbourhoods of 2^8, 2^9, 2^15, 2^16 and 2^17, and runs a zipped loop on every recursion level up to 600 levels: the value must not depend on d and must be the one computed from the program constants.",
    note="Purity of the generated function is by construction (no write/read); noise statements use disjoint global names.",
    design="6/C03"),
  "C04": dict(
@@ -32,17 +32,17 @@ CLAIMED = {
    design="6/C04"),
  "C05": dict(
    technique="runtime monitoring: universal no-abort monitor (panic/fatal/step-limit/undocumented-error oracle) over hostile parseable programs in child processes, both compile modes",
-   text="Grammar-random ill-typed programs, an enumerated hostile-value x operator/statement-position matrix, token mutations of corpus programs, fault-planted typed sessions, generator pipelines with lambdas in iterator expressions / recycled contexts / 130..300-local consumers, and hostile scripts through the real cmd/calc binary; in REPL and script compile mode inside child workers. Any panic, Go fatal (worker death), non-zero exit, undocumented error class, or step-limit hit where the reference interpreter terminates is a violation. Thorough tier replays under -race (checkptr) and -asan workers.",
+   text="Grammar-random ill-typed programs, an enumerated hostile-value x operator/statement-position matrix, token mutations of corpus programs, fault-planted typed sessions, generator pipelines with lambdas in iterator expressions / recycled contexts / 130..300-local consumers, parameter lists repeating a name, texts outside the documented grammar that the parser may let through (run raw), two-bound slices, and hostile scripts through the real cmd/calc binary; in REPL and script compile mode inside child workers. Any panic, Go fatal (worker death), non-zero exit, undocumented error class, or step-limit hit where the reference interpreter terminates is a violation. Thorough tier replays under -race (checkptr) and -asan workers.",
    note="Ill-typed programs that loop forever have no reference verdict and are counted inconclusive/diverged; programs building values above 10^6 elements are dropped before the VM; exit() is never called.",
    design="6/C05"),
  "C09": dict(
    technique="runtime monitoring: invariant assertion at statement boundaries on hooked machine state (residue) + N-scaling monitor on hooked max stack pointer / live contexts at loop back-edges",
-   text="After every statement of typed and directed sessions (both compile modes) the hooked (sp, frame, closure, live-context) counts must equal their values before it (all zero after a failure). Loop programs of six loop kinds x nine body tails are run with 3/30/300 iterations; the max stack pointer per memory kind and max live contexts at back-edges must be identical.",
+   text="After every statement of typed and directed sessions (both compile modes) the hooked (sp, frame, closure, live-context) counts must equal their values before it (all zero after a failure). Loop programs of six loop kinds x nine body tails are run with 3/30/300 iterations; the max stack pointer per memory kind and max live contexts at back-edges must be identical. Loop bodies include guard trees (if / if-else nests of never-taken returns) and generator functions called directly; a corpus session covers yields without a consumer.",
    note="Relies on the verif accessors for sp/fp/closure/context counts and the step hook's per-memory maxima.",
    design="6/C09"),
  "C10": dict(
    technique="runtime monitoring: shadow-copy invariant monitor (every value ever produced is deep-copied and re-compared after every operation) over value-package operation histories + globals-frame differential on structure-sharing sessions",
-   text="Histories of concatenations, slices, element reads and NewArray over existing values run on the real value package with up to 64 live values re-read after every operation against their deep copies and a model; array/string sessions that share structure (slices of slices, concat onto slices with spare capacity, partially constant literals, literal-returning functions, recursion on slices, generator prefixes, closures holding slices) have their whole global frame compared with the reference after every statement; closure-plumbing sessions (arrays/strings captured by sibling closures and by closures a generator yields, routed through other functions and called again after other calls, deep recursion and recycled iterator contexts) are compared the same way.",
+   text="Histories of concatenations, slices, element reads and NewArray over existing values run on the real value package with up to 64 live values re-read after every operation against their deep copies and a model; array/string sessions that share structure (slices of slices, concat onto slices with spare capacity, partially constant literals, literal-returning functions, recursion on slices, generator prefixes, closures holding slices) have their whole global frame compared with the reference after every statement; closure-plumbing sessions (arrays/strings captured by sibling closures and by closures a generator yields, routed through other functions and called again after other calls, deep recursion and recycled iterator contexts) are compared the same way; the value-package histories hold nil, float and int elements side by side and include == / != between live values.",
    note="ARR (array literal building) is reached only through programs; shadow copies use the harness value type.",
    design="6/C10"),
  "C08": dict(
@@ -52,17 +52,17 @@ CLAIMED = {
    design="6/C08"),
  "C12": dict(
    technique="runtime monitoring: metamorphic placement monitor (one expression in ~35 code-generation contexts, rewrite equivalences, enumerated non-boolean conditions) with the reference semantics as tie-breaker",
-   text="Typed expressions are embedded in used/discarded/tail/return/argument/array/if/while/for/yield/top-level-return/operand-depth placements, each run on a fresh interpreter and compared (value where observable, output, error class) with the reference answer for the plain expression; x=x+1 vs x=1+x vs t=x;x=t+1, e op e vs t=e;t op t, negated if/while are cross-compared in both modes; every non-boolean condition in 24 statement placements must be a type error that runs no body.",
+   text="Typed expressions are embedded in used/discarded/tail/return/argument/array/if/while/for/yield/top-level-return/operand-depth placements, each run on a fresh interpreter and compared (value where observable, output, error class) with the reference answer for the plain expression; x=x+1 vs x=1+x vs t=x;x=t+1, e op e vs t=e;t op t, negated if/while are cross-compared in both modes; every non-boolean condition in 24 statement placements must be a type error that runs no body. Further expressions: two operands that are the same tree with an effectful call, operands that look alike on paper (2 / 2.0 / \"2\", a variable and the string spelling its name), a negated comparison with a NaN operand; for strings and arrays also placements beside non-identity literals (\"<\" + e, [71] + e + [72]) whose expected value is computed from the plain value; rewrites include the non-commuting mirror forms (x = 1 - x vs t = x; x = 1 - t).",
    note="Expressions the reference finds ambiguous or nil-valued are dropped.",
    design="6/C12"),
  "C15": dict(
    technique="runtime monitoring: exhaustive round-trip assertion over the operand-field space + OR-composition and function-layout sweeps (+ limit-crossing sessions)",
-   text="The real EncodeSrc/New/decoders are executed on every slot x kind x address in -70000..70000 (complete), every opcode with composed operands, and the function-value layout lattice; each accepted encode must decode to exactly its inputs with all other fields zero, the only alternative being a refusal. Sessions crossing 2^15 data-segment entries, function bodies of 3000..33000 statements (jump distance) and functions with 300..70000 parameters/arguments must print exactly what they compute or be refused with a reported compiler error that leaves both segments unchanged; a call with a wrapped-around argument count must end in refusal or an arity error.",
+   text="The real EncodeSrc/New/decoders are executed on every slot x kind x address in -70000..70000 (complete), every opcode with composed operands, and the function-value layout lattice; each accepted encode must decode to exactly its inputs with all other fields zero, the only alternative being a refusal. Sessions crossing 2^15 data-segment entries, function bodies of 3000..33000 statements (jump distance) and functions with 300..70000 parameters/arguments must print exactly what they compute or be refused with a reported compiler error that leaves both segments unchanged; a call with a wrapped-around argument count must end in refusal or an arity error. A longcode family grows the code segment to chosen sizes (0, every small offset across the reallocation points, around 2^15 and 2^16, 100 000 instructions) with straight-line padding functions and then defines and calls small functions of every control-flow shape, which must simply work and print what the reference says (under a step limit).",
    note="A panic of EncodeSrc counts as refusal at API level. Session-level limit crossing is covered by the history family once the session runner applies.",
    design="6/C15"),
  "C14": dict(
    technique="runtime monitoring: trace-law checker over the real lexer's token stream + reference scanner + metamorphic relayout",
-   text="The real lexer is run on seeded alphabet-weighted strings, corpus programs and mutations; every accepted stream is checked against the span/text/gap/longest-run/EOL/terminator laws, a reference scanner written from the README token table, and a relaid-out variant of the same text.",
+   text="The real lexer is run on seeded alphabet-weighted strings, corpus programs and mutations; every accepted stream is checked against the span/text/gap/longest-run/EOL/terminator laws, a reference scanner written from the README token table, and a relaid-out variant of the same text. Rejected inputs are checked too: a text the README token table allows (no NUL, no over-long number) must not be rejected. A long family runs the same laws on inputs of 64..160 KiB.",
    note="String token text compared modulo the pinned \\n expansion; lexer hangs/aborts are C06's subject and are counted inconclusive here.",
    design="6/C14"),
  "C06": dict(
@@ -92,12 +92,12 @@ CLAIMED = {
    design="6/C16"),
  "C17": dict(
    technique="runtime monitoring: contract monitors on injected values (render/round-trip laws evaluated by the program under test), list-model monitor for generator built-ins, enumerated misuse matrix, read() line-sequence monitor in-process and over real processes (pipe, file, FIFO, strace-injected EIO)",
-   text="Random and boundary ints/floats/strings (incl. format verbs)/nested arrays injected as globals: write(x) == write(toa(x)) == toa(x) == reference rendering and aton(toa(n)) == n; fromto/elems/indices collected by loops against plain lists; every built-in with 0..3 arguments of 9 kinds must fail exactly when its contract says so; successive read() calls must return successive lines then a read error, in-process and with the real binary reading a pipe, a file, a chunk-fed FIFO and a file with an injected EIO.",
+   text="Random and boundary ints/floats/strings (incl. format verbs)/nested arrays injected as globals: write(x) == write(toa(x)) == toa(x) == reference rendering and aton(toa(n)) == n; fromto/elems/indices collected by loops against plain lists; every built-in with 0..3 arguments of 9 kinds must fail exactly when its contract says so; successive read() calls must return successive lines then a read error, in-process and with the real binary reading a pipe, a file, a chunk-fed FIFO and a file with an injected EIO; lines may be empty, end in CR or exceed 64 KiB; an exit family checks that what a statement wrote before exit(k) is on standard output and the status is k; generator built-ins also run with mixed int/float bounds.",
    note="Float rendering = Go shortest round-trip formatting; input always ends with a newline; after an injected EIO only 'reported, process alive, script continues' is demanded.",
    design="6/C17"),
  "C19": dict(
    technique="runtime monitoring: trace-specification checker over the recorded error report (parsed) against the reference semantics' call/coroutine trace and the step hook's last dispatched instruction",
-   text="Failing statements of every error class at call depth up to 200, in loops, (nested) generators, pipeline stage functions, closures, function-valued parameters and built-ins, calls whose parameters and operands hold awkward values (arrays of 8..12 elements starting with empty strings, format verbs, renderings around the 20 character abbreviation limit), each session ending in two more failing statements; the printed report is parsed and checked: header class, marked instruction equals the hook's last dispatched instruction and belongs to the failing operation's opcode family, every listed line shows the word that is at that address and its independent disassembly, listed operands are an ordered subset of the operands the operation saw, one context block per active coroutine with call-site names, argument counts and current argument values innermost first; never 'giving up', never a panic.",
+   text="Failing statements of every error class at call depth up to 200, in loops, (nested) generators, pipeline stage functions, closures, function-valued parameters and built-ins, calls whose parameters and operands hold awkward values (arrays of 8..12 elements starting with empty strings, format verbs, renderings around the 20 character abbreviation limit), callees named through captured variables, failures inside recycled iterator contexts, calls inside while conditions failing at the loop-back test, multi-byte values, one session in twenty with a compiler-refused statement in the middle, each session ending in two more failing statements; the printed report is parsed and checked: header class, marked instruction equals the hook's last dispatched instruction and belongs to the failing operation's opcode family, every listed line shows the word that is at that address and its independent disassembly, listed operands are an ordered subset of the operands the operation saw, one context block per active coroutine with call-site names, argument counts and current argument values innermost first; never 'giving up', never a panic.",
    note="Operand-list completeness is not demanded; values are compared in the report's own 20-character abbreviation; a nil operand may be reported by the MOV that loads it.",
    design="6/C19"),
 }
